@@ -210,6 +210,30 @@ func init() {
 			Old: "\tlatestRevisionNumber := latestRevisionNumber(prevObjectSets)\n",
 			New: "\tvar latestRevisionNumber int64\n\tif len(prevObjectSets) > 0 {\n\t\tlatestRevisionNumber = prevObjectSets[len(prevObjectSets)-1].GetRevision()\n\t}\n"},
 
+		// the five-way && extracted into a boolean helper with early returns (corpus J4-3): the
+		// normaliser's tail duplication leaves one dead copy of the reuse branch per `return false`
+		Mutant{Prop: "C07", Name: "r4-benign-reuse-test-as-early-return-helper", File: nrr, Benign: true,
+			Old: "\tif !conflictingObjectSet.IsArchived() &&\n\t\tconflictingObjectSet.GetRevision() >= latestRevisionNumber &&\n\t\tcontrollerRef != nil &&\n\t\tcontrollerRef.UID == objectDeployment.ClientObject().GetUID() &&\n\t\tequality.Semantic.DeepEqual(newObjectSet.GetTemplateSpec(), conflictingObjectSet.GetTemplateSpec()) {\n",
+			New: "\t_ = controllerRef\n\tif isOwnUpToDate(conflictingObjectSet, newObjectSet, latestRevisionNumber, objectDeployment) {\n",
+			More: []Edit{{File: nrr, Old: "\n// Creates and returns a new objectset in memory with the correct objectset template,\n",
+				New: "\nfunc isOwnUpToDate(conflicting, desired adapters.ObjectSetAccessor, latest int64, dep adapters.ObjectDeploymentAccessor) bool {\n" +
+					"\tref := metav1.GetControllerOf(conflicting.ClientObject())\n\tif conflicting.IsArchived() {\n\t\treturn false\n\t}\n" +
+					"\tif conflicting.GetRevision() < latest {\n\t\treturn false\n\t}\n\tif ref == nil {\n\t\treturn false\n\t}\n" +
+					"\tif ref.UID != dep.ClientObject().GetUID() {\n\t\treturn false\n\t}\n" +
+					"\treturn equality.Semantic.DeepEqual(desired.GetTemplateSpec(), conflicting.GetTemplateSpec())\n}\n" +
+					"\n// Creates and returns a new objectset in memory with the correct objectset template,\n"}}},
+		Mutant{Prop: "C07", Name: "r4-early-return-helper-accepts-archived", File: nrr,
+			Old: "\tif !conflictingObjectSet.IsArchived() &&\n\t\tconflictingObjectSet.GetRevision() >= latestRevisionNumber &&\n\t\tcontrollerRef != nil &&\n\t\tcontrollerRef.UID == objectDeployment.ClientObject().GetUID() &&\n\t\tequality.Semantic.DeepEqual(newObjectSet.GetTemplateSpec(), conflictingObjectSet.GetTemplateSpec()) {\n",
+			New: "\t_ = controllerRef\n\tif isOwnUpToDate(conflictingObjectSet, newObjectSet, latestRevisionNumber, objectDeployment) {\n",
+			More: []Edit{{File: nrr, Old: "\n// Creates and returns a new objectset in memory with the correct objectset template,\n",
+				New: "\nfunc isOwnUpToDate(conflicting, desired adapters.ObjectSetAccessor, latest int64, dep adapters.ObjectDeploymentAccessor) bool {\n" +
+					"\tref := metav1.GetControllerOf(conflicting.ClientObject())\n\tif conflicting.IsArchived() {\n\t\treturn true\n\t}\n" +
+					"\tif conflicting.GetRevision() < latest {\n\t\treturn false\n\t}\n\tif ref == nil {\n\t\treturn false\n\t}\n" +
+					"\tif ref.UID != dep.ClientObject().GetUID() {\n\t\treturn false\n\t}\n" +
+					"\treturn equality.Semantic.DeepEqual(desired.GetTemplateSpec(), conflicting.GetTemplateSpec())\n}\n" +
+					"\n// Creates and returns a new objectset in memory with the correct objectset template,\n"}},
+			Expect: []string{"C07.R4@"}},
+
 		// ---- R5: hash
 		Mutant{Prop: "C07", Name: "r5-sortkeys-false", File: hash,
 			Old:    "\t\tSortKeys:       true,\n",
